@@ -203,23 +203,30 @@ def distinct_keys(rng, n, gen=styled_key, folds=None):
     return out
 
 
-LEAVES = [1, 2.5, "s", "1", "true", None, True, [], [1], ["a", "b"], {}, "2020-01-02"]
+LEAVES = [1, 2.5, "s", "1", "true", None, True, [], [1], ["a", "b"], {}, "2020-01-02", "a\u2028b", "x\x85", "p\x0cq", "l1\nl2"]
 
 
-def random_graph_input(rng, depth=0, folds=None):
+def random_graph_input(rng, depth=0, folds=None, parent_key=None):
     """nested objects under styled keys: class names, field names and references all come from the key styles.
     Keys are pairwise distinct after case/punctuation folding over the WHOLE input (merging can bring any two together)."""
     folds = set() if folds is None else folds
     ks = distinct_keys(rng, rng.randint(1, 4), folds=folds)
     obj = {}
+    if parent_key and rng.random() < 0.12:
+        # a key spelled exactly like the class name its own object gets (XML-ish data: {"Item": {"Item": ...}})
+        import inflection
+        try:
+            obj[inflection.camelize(inflection.singularize(inflection.underscore(parent_key)))] = rng.choice(LEAVES)
+        except Exception:
+            pass
     for k in ks:
         c = rng.random()
         if depth < 2 and c < 0.35:
-            obj[k] = random_graph_input(rng, depth + 1, folds)
+            obj[k] = random_graph_input(rng, depth + 1, folds, k)
         elif depth < 2 and c < 0.5:
-            obj[k] = [random_graph_input(rng, depth + 1, folds) for _ in range(rng.randint(1, 2))]
+            obj[k] = [random_graph_input(rng, depth + 1, folds, k) for _ in range(rng.randint(1, 2))]
         elif depth < 2 and c < 0.55:
-            obj[k] = {"x": 1, "inner": random_graph_input(rng, depth + 1, folds)}
+            obj[k] = {"x": 1, "inner": random_graph_input(rng, depth + 1, folds, "inner")}
         else:
             obj[k] = rng.choice(LEAVES)
     return obj
@@ -301,15 +308,20 @@ def literal_cases(chk, n):
         count = rng.choice([0, 1, 2, 3, 9, 10, 11, 14, 15, 16, 17])
         longest = rng.choice([1, 2, 3, 3, 19, 20, 21])
         strs = set()
-        if rng.random() < 0.3:
+        family = rng.random() < 0.2 and count >= 3
+        if family:
+            t = rng.choice(["a", "b", "é", "x y", "'"])
+            strs.update([t, t + "," + t, t + "," + t + "," + t])
+        elif rng.random() < 0.3:
             strs.update(rng.sample(COLLIDE, min(count, rng.randint(2, 4))))
         tries = 0
         while len(strs) < count:
             tries += 1
             L = longest if len(strs) == 0 else rng.randint(1, min(max(longest, 2 + tries // 50), 4))
             strs.add(lit_string(rng, L))
-        strs = list(strs)
-        rng.shuffle(strs)
+        strs = sorted(strs, key=len) if family and rng.random() < 0.7 else sorted(strs)
+        if not family:
+            rng.shuffle(strs)
         company = rng.choice([None, None, "1", 1, None, "1.5"])
         in_list = rng.random() < 0.25
         samples = []
@@ -394,7 +406,7 @@ def tree_cases(chk, n):
 
 
 # ---------------------------------------------------------------------- C18: converter paths
-PSEUDO_LEAVES = {"IntString": ["1", "-7", "12"], "FloatString": ["1.5", "2e3", "1.0"], "BooleanString": ["true", "False", "TRUE"],
+PSEUDO_LEAVES = {"IntString": ["1", "-7", "12"], "FloatString": ["1.5", "12", "1", "1.0"], "BooleanString": ["true", "False", "TRUE"],
                  "IsoDateString": ["2020-01-02", "1999-12-31"], "IsoTimeString": ["10:20:30", "23:59"],
                  "IsoDatetimeString": ["2020-01-02T10:20:30", "2020-01-02T10:20:30+01:00"]}
 
